@@ -546,6 +546,12 @@ func TestConcHammer(t *testing.T) {
 						}
 						sum.Add(uint64(len(face.FaceTable.GetAll())))
 						face.FaceTable.Remove(id)
+						if rng.Intn(3) == 0 {
+							// management destroyed the face (first Remove, the transport keeps running), a registration that
+							// was under way lands, then the face's own goroutine winds down and removes it again
+							table.Rib.AddEncRoute(nm(joinName(concPrefixes[rng.Intn(5)])), &table.Route{FaceID: id, Cost: 2, Flags: flagsOf(true)})
+							face.FaceTable.Remove(id)
+						}
 						rmu.Lock()
 						removed = append(removed, id)
 						rmu.Unlock()
